@@ -292,18 +292,19 @@ def derive(base: Problem, *, terms_f: dict, terms_x: dict | None = None, sizes=N
     z = (0,) * n_par
     N = sum(sizes)
     spec["sizes"], spec["nblocks"] = sizes, len(sizes)
-    if base.exact:
-        E = [terms_x[z][i, i] for i in range(N)]
-        Ec = np.array([complex(e) for e in E])
-    else:
-        Ec = np.diag(terms_f[z]).copy()
-        E = list(Ec)
+    Ec = np.diag(terms_f[z]).copy()
+    E = list(Ec)
     keep, block_of = compute_keep(sizes, Ec, fd, masks)
     firsts = {tuple(int(x) for x in row) for row in np.eye(n_par, dtype=int)}
     if set(terms_f) - {z} != firsts:
         spec["container"] = "dict"
+    exact = spec["vtype"] == "sympy"
+    if exact and terms_x is None:
+        raise ValueError("exact encoding needs exact terms")
+    if exact:
+        E = [terms_x[z][i, i] for i in range(N)]
     q = Problem(
-        spec=spec, hermitian=base.hermitian, sizes=sizes, N=N, n_par=n_par, exact=base.exact, E=E, terms_f=terms_f, terms_x=terms_x,
+        spec=spec, hermitian=base.hermitian, sizes=sizes, N=N, n_par=n_par, exact=exact, E=E, terms_f=terms_f, terms_x=terms_x,
         keep=keep, block_of=block_of, masks=masks, fd=fd, orders=list(base.orders),
     )
     _encode(q, rng_for(*spec["case"], enc_salt))
